@@ -330,6 +330,11 @@ def delete(doc, path):
     return d
 
 
+VOCAB = ["type", "data", "entries", "sub:type", "bins:type", "values:type", "nanflow:type", "atleast", "center", "w", "v",
+         "name", "bins:name", "sub:name", "values:name", "range", "low", "high", "bins", "values", "nanflow", "origin",
+         "binWidth", "numerator", "denominator", "sum", "mean", "min", "max", "variance", "underflow", "overflow", "version"]
+
+
 def mutants(doc):
     """Yield (operator, locus, path, mutated_doc) for every single-point mutation of a valid document."""
     typ = doc["type"]
@@ -352,12 +357,18 @@ def mutants(doc):
             for k in info["required"]:
                 yield "M1-delete-required-key", "%s.%s" % (T, k), path + (k,), delete(doc, path + (k,))
             yield "M2-add-unknown-key", "%s" % T, path, put(doc, path + ("bogus",), 1)
+            for k in VOCAB:  # a key that is legal elsewhere in the format but not here
+                if k not in info["required"] and k not in info["optional"]:
+                    yield "M2-add-foreign-key", "%s" % T, path, put(doc, path + (k,), 1)
             for bad in ([], 3):
                 yield "M3-retype", "%s(fragment)" % T, path, put(doc, path, bad)
         elif role == "elem-wrapper":
             for k in info["required"]:
                 yield "M1-delete-required-key", "%s.%s element.%s" % (T, fld, k), path + (k,), delete(doc, path + (k,))
             yield "M2-add-unknown-key", "%s.%s element" % (T, fld), path, put(doc, path + ("bogus",), 1)
+            for k in VOCAB:
+                if k not in info["required"]:
+                    yield "M2-add-foreign-key", "%s.%s element" % (T, fld), path, put(doc, path + (k,), 1)
             for bad in (None, {"bogus": 1}, 3, []):
                 yield "M5-replace-element", "%s.%s element" % (T, fld), path, put(doc, path, bad)
         elif role == "child":
